@@ -25,7 +25,8 @@ type c05Case struct {
 	Stale  string `json:"stale,omitempty"` // Clean: none | entry | file | both
 	Sorted bool   `json:"sorted,omitempty"`
 	Color  bool   `json:"color,omitempty"`
-	Two    bool   `json:"two,omitempty"` // call cells: an unrelated entry precedes the slot
+	Two    bool   `json:"two,omitempty"`   // call cells: an unrelated entry precedes the slot
+	Empty  bool   `json:"empty,omitempty"` // call cells: the stored value is the empty text
 }
 
 func c05Env() string { return os.Getenv("UPDATE_SNAPS") }
@@ -38,6 +39,10 @@ func c05Gen(c *vfCtx, emit func(c05Case)) {
 			for _, api := range []string{"snap", "json", "yaml", "ssnap", "sjson"} {
 				for _, slot := range []string{"missing", "equal", "different"} {
 					emit(c05Case{Kind: "call", CI: ci, Env: env, Opt: opt, API: api, Slot: slot})
+					if (api == "snap" || api == "ssnap") && slot != "missing" {
+						// a stored value that is the empty text is still a stored value
+						emit(c05Case{Kind: "call", CI: ci, Env: env, Opt: opt, API: api, Slot: slot, Empty: true})
+					}
 					if c.thorough() {
 						emit(c05Case{Kind: "call", CI: ci, Env: env, Opt: opt, API: api, Slot: slot, Two: true, Color: true})
 						emit(c05Case{Kind: "call", CI: ci, Env: env, Opt: opt, API: api, Slot: slot, Two: true})
@@ -79,6 +84,12 @@ func c05Run(c *vfCtx, cs c05Case) {
 	}
 	dir := c.newWorld()
 	old, neu := c05Vals(cs.API)
+	if cs.Empty {
+		old = ""
+		if cs.Slot == "equal" {
+			neu = ""
+		}
+	}
 	cl := vfCall{API: cs.API, Val: neu, Upd: cs.Opt}
 	// prepare the slot with the implementation itself (default mode)
 	vfResetState(false, "", true)
